@@ -260,7 +260,8 @@ def gaussian_cases():
             V = np.diag([np.exp(-2 * r) for r in rs] + [np.exp(2 * r) for r in rs])
             cases.append(("pure-diagonal", V))
         # pure, block diagonal: rotated squeezed states
-        for rs in itertools.product([(0.4, 0.6), (0.3, -1.2), (0.0, 0.0), (0.5, PI / 2)], repeat=nm):
+        # squeezing angles from every quadrant (the angle must come out of the covariance modulo 2 pi, not modulo pi)
+        for rs in itertools.product([(0.4, 0.6), (0.3, -1.2), (0.0, 0.0), (0.5, PI / 2), (0.5, 2.5), (0.4, -2.5), (0.3, PI), (0.5, -PI / 2 - 0.2)], repeat=nm):
             S = np.eye(2 * nm)
             for j, (r, phi) in enumerate(rs):
                 S = ph.embed(ph.squeeze(r, phi), [j], nm) @ S
